@@ -235,7 +235,7 @@ Theorem impl_refines_spec_values_partial : forall rules F rank ord syncp order,
   wf_order order ->
   forall env fuel ss k ss' ifuel pfuel s sched sf m, (rank k < fuel)%nat ->
   AtRest F (fixedR rules) ss -> build rules env F order fuel ss k = Ok ss' ->
-  ImplInc1.HInv F R s -> ibuild rules env F ord syncp ifuel pfuel s k sched = (RDone sf, m) -> is_fault sf = None ->
+  ImplInc1.HInv F (fixedR rules) s -> ibuild rules env F ord syncp ifuel pfuel s k sched = (RDone sf, m) -> is_fault sf = None ->
   res_value (res_of sf k) = result_of ss' k.
 Proof. exact refines_spec_values. Qed.
 Print Assumptions impl_refines_spec_values_partial.
@@ -254,7 +254,7 @@ Print Assumptions impl_refines_spec_history_partial.
 (* ---------- P19b stage 3b-3: engines with a database, restart from the database ---------- *)
 From LLB Require Import Engine.ImplInc13 Engine.ImplInc14.
 
-(* [DInv rules F s]: HInv, the engine has a database (is_usedb = true) whose stored iteration is the epoch, and memory and database are
+(* [DInv F R s]: HInv, the engine has a database (is_usedb = true) whose stored iteration is the epoch, and memory and database are
    in step (ImplInc13.DBI): for every rule the database row has the value, signature, computedAt of the memory row, a builtAt that
    is not larger (a rule found not to need to run is stamped in memory only), and the dependencies of the memory row plus,
    possibly, single-use dependencies the memory row has dropped.  impl_dinv_new: a new engine over an empty database.
@@ -273,7 +273,7 @@ Theorem impl_build_values_clean_db_partial : forall rules F rank R ord syncp,
 Proof. exact build_DInv. Qed.
 Print Assumptions impl_build_values_clean_db_partial.
 
-Theorem impl_restart_from_database : forall rules F s, DInv F R s -> DInv rules F (irestart true s).
+Theorem impl_restart_from_database : forall F R s, DInv F R s -> DInv F R (irestart true s).
 Proof. exact restart_DInv. Qed.
 Print Assumptions impl_restart_from_database.
 
